@@ -166,8 +166,15 @@ func (x *rx) pipelines(fn *core.Fn, g *cfgq.Graph, scans []cfgq.Point, isScan fu
 		x.c.Undecidedf("R4.pipeline", "doFetch", fn.Decl.Pos(), "DUMP/PTTL/keyChan sends are not each inside a range loop")
 		return
 	}
-	keys := c07.Obj(x.info, lk.slice)
-	kd, kp := reg.arg(c07.Obj(x.info, ld.slice)), reg.arg(c07.Obj(x.info, lp.slice))
+	// a slice carried in the field of a context struct literal stands for the value the literal was given
+	sliceObj := func(e ast.Expr) types.Object {
+		if d := c07.LitField(x.info, e); d != nil {
+			e = d
+		}
+		return c07.Obj(x.info, e)
+	}
+	keys := sliceObj(lk.slice)
+	kd, kp := reg.arg(sliceObj(ld.slice)), reg.arg(sliceObj(lp.slice))
 	if keys == nil || kd == nil || kp == nil {
 		x.c.Undecidedf("R4.align", "doFetch/same-slice", lk.stmt.Pos(), "the slices iterated by the pipelines / the KeyNode loop are not plain variables (or not passed as such to the helper)")
 	} else {
@@ -259,14 +266,17 @@ func (x *rx) pipelines(fn *core.Fn, g *cfgq.Graph, scans []cfgq.Point, isScan fu
 	var trace func(slice types.Object, conv string, depth int) string
 	trace = func(slice types.Object, conv string, depth int) string {
 		got := map[string]bool{}
-		for _, p := range rg.Points(func(n ast.Node) bool { as, _ := c07.AssignsTo(x.info, n, slice); return as != nil }) {
-			as, r := c07.AssignsTo(x.info, p.Node(), slice)
+		for _, p := range rg.Points(func(n ast.Node) bool { as, _ := assignsLoc(x.info, n, slice); return as != nil }) {
+			as, r := assignsLoc(x.info, p.Node(), slice)
 			if as != nil && r == nil && len(as.Rhs) == 1 && c07.Obj(x.info, as.Lhs[0]) == slice {
 				r = as.Rhs[0] // `slice, err = conv(reply, err)`
 			}
 			if as == nil || r == nil {
 				got["?"] = true
 				continue
+			}
+			if core.IsNil(x.info, c07.Strip(x.info, r)) {
+				continue // the zero value it is declared with: `var s []T`, `s := ([]T)(nil)`
 			}
 			call, ok := ast.Unparen(r).(*ast.CallExpr)
 			if !ok {
@@ -395,7 +405,7 @@ func (x *rx) pipelines(fn *core.Fn, g *cfgq.Graph, scans []cfgq.Point, isScan fu
 	}
 	x.c.Check("R3.db", "doFetch/keynode-db", lit.Pos(), fields["db"] != nil && isDB(fields["db"]), "KeyNode.db must be the database being fetched")
 	// R4.keys: the slice is not modified between the pipelines (nor, with a helper, before the KeyNodes are built)
-	rkeys := c07.Obj(x.info, ld.slice)
+	rkeys := sliceObj(ld.slice)
 	w = rg.Path(cfgq.Query{From: dumpS[0], After: true, Avoid: isScan, Target: func(n ast.Node) bool { a, _ := c07.AssignsTo(x.info, n, rkeys); return a != nil }})
 	if w == nil && reg.call != nil {
 		if cp, ok := g.Find(reg.call); ok {
@@ -425,15 +435,20 @@ func (x *rx) filterRules(fn *core.Fn, g *cfgq.Graph, scans []cfgq.Point, keys ty
 		}
 	}
 	rg, rbody := reg.g, reg.fn.Decl.Body
-	var fl *ast.RangeStmt
+	// the loop that visits the scanned page: a range or an index loop over the whole slice
+	var fit *iter
 	for _, call := range x.calls(rbody, isFilter) {
-		fl = loopOf(rbody, call)
+		fit = x.iterOf(rbody, call)
+	}
+	var fl ast.Stmt
+	if fit != nil {
+		fl = fit.stmt
 	}
 	var raw types.Object
 	if as, ok := scans[0].Node().(*ast.AssignStmt); ok {
 		raw = c07.Obj(x.info, as.Lhs[0])
 	}
-	if fl == nil || raw == nil || reg.arg(c07.Obj(x.info, fl.X)) != raw {
+	if fit == nil || raw == nil || reg.arg(c07.Obj(x.info, fit.slice)) != raw {
 		x.c.Undecidedf("R4.keys", "doFetch/filter", fn.Decl.Pos(), "no loop over the scanned keys applying FilterKey (in doFetch or one helper given the scanned page)")
 		return
 	}
@@ -445,7 +460,7 @@ func (x *rx) filterRules(fn *core.Fn, g *cfgq.Graph, scans []cfgq.Point, keys ty
 		}
 		kept = nil
 		okRet := true
-		param := c07.Obj(x.info, fl.X)
+		param := c07.Obj(x.info, fit.slice)
 		core.Inspect(rbody, func(n ast.Node) bool {
 			if ret, ok := n.(*ast.ReturnStmt); ok {
 				o := types.Object(nil)
@@ -470,41 +485,79 @@ func (x *rx) filterRules(fn *core.Fn, g *cfgq.Graph, scans []cfgq.Point, keys ty
 		}
 	}
 	fh, fb := c07.RangeBlocks(rg, fl)
-	kv := c07.Obj(x.info, fl.Value)
-	// the kept slice: the slice the pipelines iterate, or a local that is copied into it after the loop and before
-	// the slice is read (`keys = kept`, the shape an expanded filtering helper leaves behind)
+	isKey := func(e ast.Expr) bool { return x.elem(fit, e) } // the key of this iteration
+	// the kept slice: the slice the pipelines iterate, or a local whose value flows into it after the loop and
+	// before it is read: through copies (`keys = kept`, a result variable of an expanded helper) and through the
+	// field of a struct literal (`page := &scannedPage{keys: r}`), transitively
 	keptSet := map[types.Object]bool{kept: true}
-	if kept != nil {
-		for _, p := range rg.Points(func(n ast.Node) bool { as, _ := c07.AssignsTo(x.info, n, kept); return as != nil }) {
-			_, r := c07.AssignsTo(x.info, p.Node(), kept)
-			src, isV := c07.Obj(x.info, r).(*types.Var)
-			if r == nil || !isV || src.IsField() || types.Object(src) == raw || !c07.Within(posOf(src), rbody) {
+	type link struct {
+		node ast.Node
+		dst  types.Object
+		src  *types.Var
+	}
+	var links []link
+	addLink := func(n ast.Node, dst types.Object, r ast.Expr) {
+		if src, isV := c07.Obj(x.info, r).(*types.Var); isV && !src.IsField() && types.Object(src) != raw && c07.Within(posOf(src), rbody) {
+			links = append(links, link{n, dst, src})
+		}
+	}
+	for _, p := range rg.Points(func(ast.Node) bool { return true }) {
+		n := p.Node()
+		if as, isAs := n.(*ast.AssignStmt); isAs && len(as.Lhs) == len(as.Rhs) {
+			for i, l := range as.Lhs {
+				if o := c07.Obj(x.info, l); o != nil {
+					addLink(n, o, as.Rhs[i])
+				}
+			}
+		}
+		ast.Inspect(n, func(m ast.Node) bool {
+			if cl, isCL := m.(*ast.CompositeLit); isCL {
+				for _, el := range cl.Elts {
+					if kvp, isKV := el.(*ast.KeyValueExpr); isKV {
+						if fid, isID := kvp.Key.(*ast.Ident); isID {
+							if fo := x.info.Uses[fid]; fo != nil {
+								addLink(n, fo, kvp.Value)
+							}
+						}
+					}
+				}
+			}
+			return true
+		})
+	}
+	reads := func(o types.Object, except ast.Node) func(ast.Node) bool {
+		return func(n ast.Node) bool {
+			if n == except {
+				return false
+			}
+			found := false
+			ast.Inspect(n, func(m ast.Node) bool {
+				if id, isID := m.(*ast.Ident); isID && x.info.Uses[id] == o {
+					found = true
+				}
+				return !found
+			})
+			return found
+		}
+	}
+	for changed, round := true, 0; changed && round < 4 && kept != nil; round++ {
+		changed = false
+		for _, l := range links {
+			if !keptSet[l.dst] || keptSet[l.src] {
 				continue
 			}
-			copied := c07.IsNode(p.Node())
-			reads := func(n ast.Node) bool {
-				if copied(n) {
-					return false
-				}
-				found := false
-				ast.Inspect(n, func(m ast.Node) bool {
-					if id, isID := m.(*ast.Ident); isID && x.info.Uses[id] == kept {
-						found = true
-					}
-					return !found
-				})
-				return found
-			}
-			if rg.Path(cfgq.Query{From: cfgq.Point{B: fh0(rg, fl)}, Avoid: copied, Target: reads, AvoidEdge: func(b *cfg.Block, s int) bool {
-				return b.Succs[s].Kind == cfg.KindRangeBody && b.Succs[s].Stmt == ast.Stmt(fl)
+			// the copy is executed after the loop on every way to a read of its target
+			if rg.Path(cfgq.Query{From: cfgq.Point{B: fh}, Avoid: c07.IsNode(l.node), Target: reads(l.dst, l.node), AvoidEdge: func(b *cfg.Block, s int) bool {
+				return b.Succs[s] == fb
 			}}) == nil {
-				keptSet[src] = true
+				keptSet[l.src] = true
+				changed = true
 			}
 		}
 	}
 	isKeep := func(n ast.Node) bool {
 		b := pat.Stmt("_k = append(_k, _v)").Match(x.info, n, nil)
-		return b != nil && keptSet[c07.Obj(x.info, b["_k"].(ast.Expr))] && c07.Obj(x.info, b["_v"].(ast.Expr)) == kv
+		return b != nil && keptSet[c07.Obj(x.info, b["_k"].(ast.Expr))] && isKey(b["_v"].(ast.Expr))
 	}
 	filtered := func(val bool) func(*cfg.Block, int) bool {
 		return func(b *cfg.Block, s int) bool {
@@ -517,9 +570,17 @@ func (x *rx) filterRules(fn *core.Fn, g *cfgq.Graph, scans []cfgq.Point, keys ty
 					}
 				}
 				call, ok := ast.Unparen(e).(*ast.CallExpr)
-				return ok && isFilter(call) && len(call.Args) == 1 && c07.Obj(x.info, call.Args[0]) == kv && v == val
+				return ok && isFilter(call) && len(call.Args) == 1 && isKey(call.Args[0]) && v == val
 			})
 		}
+	}
+	anyAppend := func(n ast.Node) bool {
+		b := pat.Stmt("_k = append(_k, _v)").Match(x.info, n, nil)
+		return b != nil && isKey(b["_v"].(ast.Expr))
+	}
+	if len(rg.Points(isKeep)) == 0 && len(rg.Points(anyAppend)) > 0 {
+		x.c.Undecidedf("R4.keys", "doFetch/kept-keys-appended", fl.Pos(), "the keys that pass the filter are appended to a slice whose way into the slice the pipelines iterate is not followed")
+		return
 	}
 	x.c.Check("R4.keys", "doFetch/kept-keys-appended", fl.Pos(), !c07.ReachBlock2(rg, cfgq.Point{B: fb}, isKeep, filtered(true), fh),
 		"a scanned key that passes the key filter must be appended to the key slice: otherwise it is never dumped and never copied")
@@ -532,8 +593,19 @@ func (x *rx) filterRules(fn *core.Fn, g *cfgq.Graph, scans []cfgq.Point, keys ty
 	x.check("R4.keys", "doFetch/filtered-keys-dropped", fl.Pos(), wk, "a key rejected by the key filter is still appended to the key slice and copied")
 }
 
-// fh0 is the head block of a range statement.
-func fh0(g *cfgq.Graph, rs *ast.RangeStmt) *cfg.Block {
-	h, _ := c07.RangeBlocks(g, rs)
-	return h
+// assignsLoc is c07.AssignsTo for a variable or a struct field (`v = e`, `p.f = e`).
+func assignsLoc(info *types.Info, n ast.Node, v types.Object) (*ast.AssignStmt, ast.Expr) {
+	as, ok := n.(*ast.AssignStmt)
+	if !ok {
+		return nil, nil
+	}
+	for i, l := range as.Lhs {
+		switch ast.Unparen(l).(type) {
+		case *ast.Ident, *ast.SelectorExpr:
+			if c07.Obj(info, l) == v {
+				return as, core.AssignedTo(as, i)
+			}
+		}
+	}
+	return nil, nil
 }
